@@ -375,7 +375,9 @@ impl Prop for PSem {
             Some(f) => (0..2).all(|k| f[k]["there"] == obs["files"][k]["there"] && json_to_bytes(&f[k]["b"]) == json_to_bytes(&obs["files"][k]["b"])),
             None => true,
         };
-        obs.get("panic").is_none() && obs["exit"].as_i64() == Some(0) && json_to_bytes(&exp["out"]) == json_to_bytes(&obs["out"]) && files_ok
+        // the exit status is non-zero exactly when something was diagnosed (a starting point that does not exist)
+        let errs = exp.get("errs").and_then(|e| e.as_u64()).unwrap_or(0);
+        obs.get("panic").is_none() && (obs["exit"].as_i64() != Some(0)) == (errs > 0) && json_to_bytes(&exp["out"]) == json_to_bytes(&obs["out"]) && files_ok
     }
 
     fn corrupt(&self, obs: &Value) -> Option<Value> {
